@@ -1,6 +1,6 @@
 (* C14, flag values.  op C14.flag, input "<kind> <hex value>" (harness/c14flags.go); model output: what
-   Model/Flags.v parse_value yields, rendered like the observation ("?" where the model has no opinion: a
-   regular expression outside the modelled sublanguage, or one whose meaning Model/Str.v cannot express);
+   Model/Flags.v parse_value yields, rendered like the observation ("ok m=?" for an accepted regular expression
+   whose meaning Model/Str.v cannot express: accepted/rejected is predicted for every string, the matches are not);
    spec verdict: Flags.value_in_range on the value the implementation accepted. *)
 open Drv_util
 open Drv_journal
@@ -59,8 +59,7 @@ let () =
             | K.FlagsM.VOk x -> render_value x
             | K.FlagsM.VErr e ->
               (match e with
-               | K.FlagsM.EIntSyntax -> "err syntax" | K.FlagsM.EIntRange -> "err range" | _ -> "err")
-            | K.FlagsM.VUnknown -> "?" in
+               | K.FlagsM.EIntSyntax -> "err syntax" | K.FlagsM.EIntRange -> "err range" | _ -> "err") in
           let spec =
             if String.length obs >= 3 && String.sub obs 0 3 = "err" then "ok"
             else match observed_value kind obs with
